@@ -10,7 +10,9 @@ Flow records:   `auth st=… cimd=… pre=… dcr=… u=<url> hm=… ch=… hdr=
                 `again st=… u=<url> hm=… ch=… hdr=… prm=… asm=… reg=… tok=… f=… [sty=…]` runs ANOTHER round on the
                 handler of the case (same configuration; its own request URL, response and network);
                 `begin <as again>` STARTS a further `Authorize` call on the handler and leaves it in flight (observation
-                `parked` = it waits in the fetcher, `done` = it ended before), `end <k>` lets attempt `k` (numbered in
+                `parked` = it waits in the fetcher, `done` = it ended before), `answer <k>` lets the fetcher of attempt `k`
+                return and holds the attempt at its first token request (`held`; `done` = it ended without one),
+                `end <k>` lets attempt `k` (numbered in
                 start order) return from the fetcher and finish (observation as for a round): any number of
                 attempts in flight, finished in any order; `auth`/`again` = `begin` + `end` at once.  In `f=R|<state>|<iss>`
                 the state is `g` (generated for this attempt), `s<k>` (generated for attempt `k`: one in flight or
@@ -440,6 +442,17 @@ def engine : Engine (Option HState) where
         match parseCase (some (hs.c.cfg, hs.nts)) hs.c.started rest with
         | none => (st, { model := "bad-op" })
         | some c => let (st', m) := startStep hs c; (st', { model := m })
+    | ["answer", k] =>
+      -- the fetcher of attempt `k` returns; the attempt is held at its first token request (`held`) or ends (`done`:
+      -- reported by its `end` record).  No effect on the model handler (`Step.answer`, `answer_is_invisible`).
+      match st, k.toNat? with
+      | some hs, some k =>
+        match hs.cases.lookup k with
+        | some c =>
+          let r := attemptResult hs.c.cfg k c.attempt
+          (some { hs with c := (hs.c.step (.answer k)).1 }, { model := if hasTok (obsOf r).events then "held" else "done" })
+        | none => (st, { model := "no-such-attempt" })
+      | _, _ => (st, { model := "bad-op" })
     | ["end", k] =>
       match st, k.toNat? with
       | some hs, some k => finishStep hs k impl
